@@ -10,7 +10,7 @@ MODULE_DEFAULTS = {
     "MC_Defaults": {"DEV_EmptyContainerDefault": "FALSE", "MUT_Defaults": '"none"'},
     "MC_Clone": {"MUT_SkipField": '"none"', "MUT_Clone": '"none"'},
     "MC_Infer": {"CheckKnown": "FALSE", "LegacyNull": "FALSE", "MUT_Infer": '"none"'},
-    "MC_Resolve": {"DEV_CacheHitNoInfoMerge": "FALSE", "MUT_CacheAfterRefs": "FALSE", "MUT_Resolver": '"none"'},
+    "MC_Resolve": {"DEV_CacheHitNoInfoMerge": "FALSE", "MUT_CacheAfterRefs": "FALSE", "MUT_Resolver": '"none"', "CheckKnown": "FALSE"},
     "MC_Reps": {"DEV_EqualKindStrict": "FALSE", "DEV_NumberEqualsString": "FALSE", "DEV_JsonNumberIsString": "FALSE", "MUT_ScanLastOnly": "FALSE"},
     "MC_Pointer": {"DEV_AtoiIndex": "FALSE", "MUT_UnescapeOrder": "FALSE", "DEV_NilTarget": "FALSE", "MUT_Pointer": '"none"'},
 }
@@ -120,7 +120,7 @@ def res_jobs(prefix, fams, workers=6):
 
 
 def plan_C03(tier, seed):
-    fams = [("R1", 1), ("R2", 1)] if tier == "quick" else [("R1", 3), ("R2", 2)]
+    fams = [("R1", 1), ("R2", 1), ("R3", 1)] if tier == "quick" else [("R1", 3), ("R2", 2), ("R3", 1)]
     jobs = res_jobs("c03", fams, workers=6 if tier == "quick" else 8)
     # pointer-fragment references (C17's universes are part of "every $ref reaches the designated subschema")
     pc = {"DEV_AtoiIndex": "FALSE", "MUT_UnescapeOrder": "FALSE", "K": 2 if tier == "quick" else 3}
@@ -258,9 +258,12 @@ def plan_C05(tier, seed):
 
 def plan_C18(tier, seed):
     j = cod_job("c18", "DK", 1 if tier == "quick" else 2, ["DecorationInert"], workers=6)
+    rd = cod_job("c18", "RD", 1, [], workers=2)
     return dict(
-        tlc=[j], parallel=1,
-        replay=[dict(name="c18_replay", family="eval", inputs=[j["name"]])],
+        tlc=[j, rd], parallel=2,
+        replay=[dict(name="c18_replay", family="eval", inputs=[j["name"]]),
+                # "a document that contains unknown keywords is always accepted by Unmarshal": the raw documents
+                dict(name="c18_documents", family="rawdoc", inputs=[rd["name"]], kinds=["unmarshal"])],
         rule="base schemas x decoration at the root or at the first subschema: every documented non-asserting keyword with "
              "well-typed values (incl. contentSchema:false, defaults that would not validate, unreferenced $defs/definitions "
              "entries that are false) and unknown keyword names incl. names differing from a keyword only by case ('Type', "
